@@ -38,6 +38,8 @@ static PARSER_STEP_LIMIT: Limit = Limit::new(15_000_000);
 
 impl<'t> Parser<'t> {
     pub(super) fn new(inp: &'t Input) -> Parser<'t> {
+        #[cfg(oq3_verif)]
+        crate::verif::on_new_parser();
         Parser {
             inp,
             pos: 0,
@@ -49,6 +51,8 @@ impl<'t> Parser<'t> {
     /// Move `events` out of this `Parser`.
     /// After calling `finish`, the events are proccesed into the syntax tree.
     pub(crate) fn finish(self) -> Vec<Event> {
+        #[cfg(oq3_verif)]
+        crate::verif::on_finish(&self.events);
         self.events
     }
 
@@ -82,6 +86,8 @@ impl<'t> Parser<'t> {
             PARSER_STEP_LIMIT.check(steps as usize).is_ok(),
             "the parser seems stuck"
         );
+        #[cfg(oq3_verif)]
+        assert!(steps < crate::verif::STEP_LIMIT, "oq3_verif: step limit");
         self.steps.set(steps + 1);
 
         self.inp.kind(self.pos + n)
@@ -292,10 +298,14 @@ impl<'t> Parser<'t> {
     fn do_bump(&mut self, kind: SyntaxKind, n_raw_tokens: u8) {
         self.pos += n_raw_tokens as usize;
         self.steps.set(0);
+        #[cfg(oq3_verif)]
+        crate::verif::on_bump();
         self.push_event(Event::Token { kind, n_raw_tokens });
     }
 
     fn push_event(&mut self, event: Event) {
+        #[cfg(oq3_verif)]
+        crate::verif::on_event();
         self.events.push(event);
     }
 }
